@@ -100,7 +100,7 @@ def t_diff_annotate(E):
     f, h = E.opaque("argdiff_fn"), E.opaque("retdiff_fn")
     da2 = E.method(req, "dimap", pre=f, post=h)
     r2 = E.method(da2, "edit", k, tr, ad)
-    ap = E.ctx.fn("apply1", U, U, U)
+    ap = (lambda f_, x_: E.ctx.fn("apply", U, U, U)(f_, E.I.ctx.fn("u_cons", U, U, U)(x_, E.z3.Const("u_nil", U))))
     inner = E.method(req, "edit", k, tr, UVal(ap(f.t, ad.t)))
     E.prove("C38.DiffAnnotate.maps_are_applied_around_inner_request", E.And(
         E.eq(r2[0], inner[0]), E.eq(r2[1], inner[1]), E.eq(r2[3], inner[3]),
